@@ -96,8 +96,9 @@ Section Proofs.
   Variable relab : labels -> option labels.
   Variables (bsz nbq : nat) (ext : labels).
 
-  Notation step := (step relab bsz nbq ext).
-  Notation run := (run relab bsz nbq ext).
+  (* the code as it is now (after fix dca118dfcb): old_flush = false *)
+  Notation step := (step relab bsz nbq ext false).
+  Notation run := (run relab bsz nbq ext false).
   Notation init := (init).
 
   Lemma run_snoc : forall n0 ops o, run n0 (ops ++ [o]) = step (run n0 ops) o.
@@ -108,72 +109,77 @@ Section Proofs.
   Definition wf_shard (sf : bool) (sh : shard) : Prop :=
     (sf = false -> sh_fl sh = FNone /\ sh_exit sh = false)
     /\ q_closed (sh_q sh) = (match sh_fl sh with FClosed => true | _ => false end)
-    /\ (sh_exit sh = true -> sh_infl sh = None /\ q_chan (sh_q sh) = [] /\ sh_fl sh = FClosed).
+    /\ (sh_exit sh = true -> sh_infl sh = None /\ q_chan (sh_q sh) = [] /\ sh_fl sh = FClosed)
+    /\ (sh_fl sh <> FNone -> q_batch (sh_q sh) = []).
 
   Definition W (s : st) : Prop :=
     (0 < length (shards s))%nat
     /\ forall k sh, nth_error (shards s) k = Some sh -> wf_shard (soft s) sh.
 
-  Ltac wfin H1 H3 :=
+  Ltac wfin H1 H3 H4 :=
     simpl; auto; try discriminate; try congruence;
     try (let E := fresh "E" in intros E; try discriminate;
-         first [destruct (H1 E) as [? ?] | destruct (H3 E) as [? [? ?]]]; auto; try congruence).
+         first [ solve [destruct (H1 E) as [? ?]; auto; congruence]
+               | solve [destruct (H3 E) as [? [? ?]]; auto; congruence]
+               | solve [apply H4; auto; congruence]
+               | congruence ]).
+
+  Ltac wsplit := split; [|split; [|split]].
 
   Lemma wf_weaken : forall sf sh, wf_shard sf sh -> wf_shard true sh.
-  Proof. intros sf sh [_ [H2 H3]]. split; [discriminate | auto]. Qed.
+  Proof. intros sf sh [_ H]. split; [discriminate | exact H]. Qed.
 
   Lemma wf_new : forall sf, wf_shard sf sh_new.
-  Proof. intros; repeat split; simpl; auto; discriminate. Qed.
+  Proof. intros; wsplit; simpl; auto; try discriminate; congruence. Qed.
 
   Lemma wf_take : forall sf sh, wf_shard sf sh -> wf_shard sf (sh_take sh).
   Proof.
-    intros sf sh Hwf. pose proof Hwf as [H1 [H2 H3]]. unfold sh_take, runner_idle.
+    intros sf sh Hwf. pose proof Hwf as [H1 [H2 [H3 H4]]]. unfold sh_take, runner_idle.
     destruct (sh_exit sh) eqn:Ex; simpl; [exact Hwf|].
     destruct (sh_infl sh) eqn:Ei; simpl; [exact Hwf|].
     unfold q_recv. destruct (q_chan (sh_q sh)) as [|b r] eqn:Ec.
     - destruct (q_closed (sh_q sh)) eqn:Ecl; [|exact Hwf].
-      split; [|split]; simpl.
+      wsplit; simpl.
       + intros E. destruct (H1 E) as [F _]. rewrite F in H2. congruence.
       + rewrite Ecl. exact H2.
       + intros _. repeat split; auto. destruct (sh_fl sh); auto; discriminate.
-    - split; [|split]; simpl; auto. discriminate.
+      + exact H4.
+    - wsplit; wfin H1 H3 H4.
   Qed.
 
   Lemma wf_timer : forall sf sh, wf_shard sf sh -> wf_shard sf (sh_timer sh).
   Proof.
-    intros sf sh Hwf. pose proof Hwf as [H1 [H2 H3]]. unfold sh_timer, runner_idle.
+    intros sf sh Hwf. pose proof Hwf as [H1 [H2 [H3 H4]]]. unfold sh_timer, runner_idle.
     destruct (sh_exit sh) eqn:Ex; simpl; [exact Hwf|].
     destruct (sh_infl sh) eqn:Ei; simpl; [exact Hwf|].
     unfold q_timer. destruct (q_chan (sh_q sh)) as [|b r] eqn:Ec.
     - destruct (q_closed (sh_q sh)) eqn:Ecl.
-      + simpl. split; [|split]; wfin H1 H3.
-      + destruct (q_batch (sh_q sh)); (split; [|split]); wfin H1 H3.
-    - destruct b; (split; [|split]); wfin H1 H3.
+      + simpl. wsplit; wfin H1 H3 H4.
+      + destruct (q_batch (sh_q sh)); wsplit; wfin H1 H3 H4.
+    - destruct b; wsplit; wfin H1 H3 H4.
   Qed.
 
   Lemma wf_done : forall sf sh, wf_shard sf sh ->
     wf_shard sf (mkSh (sh_q sh) None (sh_exit sh) (sh_fl sh)).
   Proof.
-    intros sf sh [H1 [H2 H3]]. split; [|split]; simpl; auto.
+    intros sf sh [H1 [H2 [H3 H4]]]. wsplit; simpl; auto.
     intros E. destruct (H3 E) as [_ [A B]]. auto.
   Qed.
 
-  Lemma wf_flushpush : forall sh, wf_shard true sh -> wf_shard true (sh_flushpush nbq sh).
+  Lemma wf_flushpush : forall sh, wf_shard true sh -> wf_shard true (sh_flushpush nbq false sh).
   Proof.
-    intros sh Hwf. pose proof Hwf as [H1 [H2 H3]]. unfold sh_flushpush.
+    intros sh Hwf. pose proof Hwf as [H1 [H2 [H3 H4]]]. unfold sh_flushpush.
     destruct (sh_fl sh) eqn:Ef; try exact Hwf.
     unfold q_tryflush. destruct (q_batch (sh_q sh)) eqn:Eb.
-    - split; [discriminate|split]; simpl; auto. intros E. destruct (H3 E) as [_ [_ F]]. congruence.
-    - destruct (Nat.ltb _ _); (split; [discriminate|split]); simpl; auto;
-        intros E; destruct (H3 E) as [_ [_ F]]; congruence.
+    - wsplit; wfin H1 H3 H4.
+    - destruct (Nat.ltb _ _); wsplit; wfin H1 H3 H4.
   Qed.
 
   Lemma wf_flushclose : forall sh, wf_shard true sh -> wf_shard true (sh_flushclose sh).
   Proof.
-    intros sh Hwf. pose proof Hwf as [H1 [H2 H3]]. unfold sh_flushclose.
+    intros sh Hwf. pose proof Hwf as [H1 [H2 [H3 H4]]]. unfold sh_flushclose.
     destruct (sh_fl sh) eqn:Ef; try exact Hwf.
-    split; [discriminate|split]; simpl; auto.
-    intros E. destruct (H3 E) as [_ [_ F]]. congruence.
+    wsplit; wfin H1 H3 H4.
   Qed.
 
   Lemma W_upd : forall s k f,
@@ -218,7 +224,7 @@ Section Proofs.
       destruct (soft s) eqn:Es; [split; auto|].
       destruct (nth_error (shards s) _) as [sh|] eqn:En; [|split; auto].
       pose proof HW as [Hn Hw]. pose proof (Hw _ _ En) as Hsh. rewrite Es in Hsh.
-      destruct Hsh as [H1 [H2 H3]]. destruct (H1 eq_refl) as [Hfl Hex].
+      destruct Hsh as [H1 [H2 [H3 H4]]]. destruct (H1 eq_refl) as [Hfl Hex].
       unfold q_append. rewrite H2, Hfl.
       assert (Hloc : forall q', q_closed q' = false ->
                 W (mkSt (tab s) None
@@ -228,8 +234,9 @@ Section Proofs.
                      (n_failed s) (panicked s) (fed s) (lossy s) (flushrace s))).
       { intros q' Hq'. split; simpl; [rewrite upd_length; auto|].
         intros j sh'. rewrite nth_error_upd. destruct (Nat.eqb j _).
-        - rewrite En. simpl. intros [= <-]. split; [|split]; simpl; auto.
+        - rewrite En. simpl. intros [= <-]. wsplit; simpl; auto.
           + rewrite Hq', Hfl. auto.
+          + intros E; congruence.
           + intros E; congruence.
         - intros E0. pose proof (Hw _ _ E0) as X. rewrite Es in X. exact X. }
       destruct (Nat.eqb _ bsz).
@@ -255,7 +262,7 @@ Section Proofs.
     - destruct (soft s && negb (all_exited (shards s))) eqn:E; [|split; auto].
       split; [|simpl; auto]. destruct HW as [Hn Hw]. split; simpl; [rewrite map_length; auto|].
       intros k sh Hk. apply nth_error_In in Hk. apply in_map_iff in Hk. destruct Hk as [sh0 [<- _]].
-      unfold sh_hard. split; [discriminate|split]; simpl; auto.
+      unfold sh_hard. wsplit; simpl; auto; discriminate.
     - destruct (soft s && all_exited (shards s) && Nat.ltb 0 n) eqn:E; [|split; auto].
       apply andb_prop in E. destruct E as [_ E]. apply Nat.ltb_lt in E.
       split; [|simpl; auto]. split; simpl; [rewrite repeat_length; auto|].
@@ -372,7 +379,7 @@ Section Proofs.
   (* shard-local steps leave the shard's pipe as it is *)
   Lemma pipe_take : forall sf sh, wf_shard sf sh -> pipe (sh_take sh) = pipe sh.
   Proof.
-    intros sf sh [H1 [H2 H3]]. unfold sh_take, runner_idle.
+    intros sf sh [H1 [H2 [H3 H4]]]. unfold sh_take, runner_idle.
     destruct (sh_exit sh) eqn:Ex; simpl; auto.
     destruct (sh_infl sh) eqn:Ei; simpl; auto.
     unfold q_recv. destruct (q_chan (sh_q sh)) as [|b r] eqn:Ec.
@@ -383,7 +390,7 @@ Section Proofs.
 
   Lemma pipe_timer : forall sf sh, wf_shard sf sh -> stale_take sh = false -> pipe (sh_timer sh) = pipe sh.
   Proof.
-    intros sf sh [H1 [H2 H3]] Hst. unfold sh_timer. unfold stale_take in Hst.
+    intros sf sh [H1 [H2 [H3 H4]]] Hst. unfold sh_timer. unfold stale_take in Hst.
     destruct (runner_idle sh) eqn:Eidle; simpl; auto.
     unfold runner_idle in Eidle. apply andb_prop in Eidle. destruct Eidle as [Ex Ei].
     destruct (sh_infl sh) eqn:Ei'; [discriminate|].
@@ -399,7 +406,7 @@ Section Proofs.
         rewrite ?app_assoc; reflexivity.
   Qed.
 
-  Lemma pipe_flushpush : forall sh, pipe (sh_flushpush nbq sh) = pipe sh.
+  Lemma pipe_flushpush : forall sh, pipe (sh_flushpush nbq false sh) = pipe sh.
   Proof.
     intros sh. unfold sh_flushpush. destruct (sh_fl sh) eqn:Ef; auto.
     unfold q_tryflush. destruct (q_batch (sh_q sh)) eqn:Eb.
@@ -416,7 +423,7 @@ Section Proofs.
 
   Lemma exited_pipe_empty : forall sf sh, wf_shard sf sh -> sh_exit sh = true -> pipe sh = [].
   Proof.
-    intros sf sh [H1 [H2 H3]] Ex. destruct (H3 Ex) as [A [B C]].
+    intros sf sh [H1 [H2 [H3 H4]]] Ex. destruct (H3 Ex) as [A [B C]].
     unfold pipe, infl_list, eff_batch. rewrite A, B, C. reflexivity.
   Qed.
 
@@ -442,7 +449,7 @@ Section Proofs.
       destruct (soft s) eqn:Es; [rewrite Ep; auto|].
       destruct (nth_error (shards s) _) as [sh|] eqn:En; [|rewrite Ep; auto].
       pose proof (Hw _ _ En) as Hsh.
-      destruct Hsh as [H1 [H2 H3]]. destruct (H1 eq_refl) as [Hfl Hex].
+      destruct Hsh as [H1 [H2 [H3 H4]]]. destruct (H1 eq_refl) as [Hfl Hex].
       unfold q_append. rewrite H2, Hfl.
       destruct (Nat.eqb _ bsz).
       + destruct (Nat.ltb _ nbq); [|rewrite Ep; auto]. simpl. intros _ _.
@@ -626,7 +633,7 @@ Section Proofs.
   Lemma phys_done : forall sh, incl (phys (mkSh (sh_q sh) None (sh_exit sh) (sh_fl sh))) (phys sh).
   Proof. intros sh. incl_tac. Qed.
 
-  Lemma phys_flushpush : forall sh, incl (phys (sh_flushpush nbq sh)) (phys sh).
+  Lemma phys_flushpush : forall sh, incl (phys (sh_flushpush nbq false sh)) (phys sh).
   Proof.
     intros sh. unfold sh_flushpush. destruct (sh_fl sh); try apply incl_refl.
     unfold q_tryflush. destruct (q_batch (sh_q sh)) eqn:Eb; [apply incl_refl|].
@@ -756,6 +763,40 @@ Section Proofs.
     - rewrite run_snoc. apply K_step; auto.
   Qed.
 
+  (* ---------------- the flush/timer race cannot happen any more ---------------- *)
+
+  Lemma stale_take_false : forall sf sh, wf_shard sf sh -> stale_take sh = false.
+  Proof.
+    intros sf sh [_ [_ [_ H4]]]. unfold stale_take.
+    destruct (runner_idle sh); simpl; auto.
+    destruct (sh_fl sh) eqn:Ef; simpl; auto.
+    destruct (q_chan (sh_q sh)); simpl; auto.
+    rewrite H4; [reflexivity | congruence].
+  Qed.
+
+  Lemma flushrace_step : forall s o, W s -> flushrace s = false -> flushrace (step s o) = false.
+  Proof.
+    intros s o [Hn Hw] H. destruct o; simpl; auto.
+    - unfold do_store. destruct (relab _); auto.
+    - unfold do_lookup. destruct (pend s); auto. destruct old; auto.
+      destruct (aget _ _); auto. destruct (memZ _ _); auto.
+    - unfold do_enqueue. destruct (pend s); auto. destruct (soft s); auto.
+      destruct (nth_error _ _); auto. destruct (q_append _ _ _ _) as [q' []]; auto.
+    - rewrite H. simpl. destruct (nth_error (shards s) k) eqn:E; auto.
+      eapply stale_take_false. eapply Hw; eauto.
+    - unfold do_send. destruct (nth_error _ _); auto. destruct (sh_infl _); auto. destruct oc; auto.
+    - destruct (soft s); auto.
+    - destruct (soft s); auto.
+    - destruct (soft s && _); auto.
+    - destruct (soft s && _ && _); auto.
+  Qed.
+
+  Lemma flushrace_run : forall n0 ops, (0 < n0)%nat -> flushrace (run n0 ops) = false.
+  Proof.
+    intros n0 ops Hn. induction ops as [|o ops IH] using rev_ind; [reflexivity|].
+    rewrite run_snoc. apply flushrace_step; auto. apply W_run; auto.
+  Qed.
+
   (* ---------------- the theorems ---------------- *)
 
   Theorem no_panic : forall n0 ops, (0 < n0)%nat -> panicked (run n0 ops) = false.
@@ -772,35 +813,35 @@ Section Proofs.
 
   Theorem per_series_exact : forall n0 ops r, (0 < n0)%nat ->
     let s := run n0 ops in
-    lossy s = false -> flushrace s = false ->
+    lossy s = false ->
     fr r (fed s) = fr r (delivered (log s)) ++ outstanding s r
     /\ (quiescent s = true -> fr r (fed s) = fr r (delivered (log s))).
   Proof.
-    intros n0 ops r Hn s HL HF. pose proof (Inv_run n0 ops Hn HL HF) as [Ha He].
+    intros n0 ops r Hn s HL. pose proof (flushrace_run n0 ops Hn) as HF. pose proof (Inv_run n0 ops Hn HL HF) as [Ha He].
     assert (E : fr r (fed s) = fr r (delivered (log s)) ++ outstanding s r) by (apply (He r)).
     split; auto. intros Hq. rewrite E, (quiescent_outstanding s r Hq), app_nil_r. reflexivity.
   Qed.
 
   Theorem one_shard_per_series : forall n0 ops, (0 < n0)%nat ->
     let s := run n0 ops in
-    lossy s = false -> flushrace s = false ->
+    lossy s = false ->
     forall k sh x, nth_error (shards s) k = Some sh -> In x (pipe sh) ->
                    shard_of (length (shards s)) (i_ref x) = k.
   Proof.
-    intros n0 ops Hn s HL HF. pose proof (Inv_run n0 ops Hn HL HF) as [Ha He]. exact Ha.
+    intros n0 ops Hn s HL. pose proof (flushrace_run n0 ops Hn) as HF. pose proof (Inv_run n0 ops Hn HL HF) as [Ha He]. exact Ha.
   Qed.
 
   Theorem delivered_in_order_once : forall n0 ops, (0 < n0)%nat ->
     let s := run n0 ops in
-    lossy s = false -> flushrace s = false ->
+    lossy s = false ->
     NoDup (map i_id (fed s))
     /\ incl (delivered (log s)) (fed s)
     /\ NoDup (map i_id (delivered (log s)))
     /\ forall r, exists rest, fr r (fed s) = fr r (delivered (log s)) ++ rest.
   Proof.
-    intros n0 ops Hn s HL HF.
+    intros n0 ops Hn s HL.
     assert (Hex : forall r, fr r (fed s) = fr r (delivered (log s)) ++ outstanding s r).
-    { intros r. apply (per_series_exact n0 ops r Hn HL HF). }
+    { intros r. apply (per_series_exact n0 ops r Hn HL). }
     destruct (FedInv_run n0 ops) as [Hnd _]. fold s in Hnd.
     assert (Hincl : incl (delivered (log s)) (fed s)).
     { intros x Hx. assert (In x (fr (i_ref x) (fed s))).
@@ -824,11 +865,11 @@ Section Proofs.
 
   Theorem no_dup_without_failure : forall n0 ops, (0 < n0)%nat ->
     let s := run n0 ops in
-    all_ok (log s) = true -> lossy s = false -> flushrace s = false ->
+    all_ok (log s) = true -> lossy s = false ->
     NoDup (map i_id (attempted (log s))).
   Proof.
-    intros n0 ops Hn s Hok HL HF. rewrite all_ok_attempted; auto.
-    apply (delivered_in_order_once n0 ops Hn HL HF).
+    intros n0 ops Hn s Hok HL. rewrite all_ok_attempted; auto.
+    apply (delivered_in_order_once n0 ops Hn HL).
   Qed.
 
   Theorem sent_provenance : forall n0 ops x,
@@ -863,11 +904,19 @@ Definition ops_race : list op :=
   [OStore 7 [(1, 1)] 0; OLookup 7 100 false; OEnqueue; OLookup 7 101 false; OEnqueue;
    OSoft; OFlushPush 0; OTake 0; OSend 0 Ok; OTimer 0; OSend 0 Ok; OFlushClose 0; OTake 0].
 
-Lemma no_dup_unconditional_refuted :
-  exists ops, let s := run relab_id 3 1 [] 1 ops in
+(* the code before fix dca118dfcb (old_flush = true) sent both samples twice ... *)
+Lemma no_dup_old_refuted :
+  exists ops, let s := run relab_id 3 1 [] true 1 ops in
     all_ok (log s) = true /\ lossy s = false /\ quiescent s = true
     /\ map i_id (attempted (log s)) = [0; 1; 0; 1].
 Proof. exists ops_race. vm_compute. repeat split. Qed.
+
+(* ... the same interleaving on the code as it is now *)
+Lemma race_regression :
+  let s := run relab_id 3 1 [] false 1 ops_race in
+    all_ok (log s) = true /\ lossy s = false /\ quiescent s = true /\ flushrace s = false
+    /\ map i_id (attempted (log s)) = [0; 1].
+Proof. vm_compute. repeat split. Qed.
 
 (* two shards, batches of two: a recoverable failure retried in place, a reshard to three shards *)
 Definition ops_nv : list op :=
@@ -884,7 +933,7 @@ Definition relab_nv (l : labels) : option labels :=
   match lget 5 l with Some _ => None | None => Some l end.
 
 Lemma nonvacuous :
-  let s := run relab_nv 2 1 [(4, 7)] 2 ops_nv in
+  let s := run relab_nv 2 1 [(4, 7)] false 2 ops_nv in
   lossy s = false /\ flushrace s = false /\ quiescent s = true /\ panicked s = false
   /\ map i_id (delivered (log s)) = [0; 2; 1; 6]
   /\ map i_id (attempted (log s)) = [0; 2; 0; 2; 1; 6]
